@@ -334,6 +334,106 @@ def _keywords_refused(tree: ast.Module) -> None:
                           "whose keyword arguments are dropped)")
 
 
+def _method_calls(fn: ast.FunctionDef, recv: str, attr: str) -> list[ast.Call]:
+    return [n for n in ast.walk(fn) if isinstance(n, ast.Call) and isinstance(n.func, ast.Attribute)
+            and n.func.attr == attr and isinstance(n.func.value, ast.Name) and n.func.value.id == recv]
+
+
+def _species_attrs(tree: ast.Module) -> dict:
+    """How `_create_sbml_variables` writes a species (amount or concentration, hasOnlySubstanceUnits, which
+    compartment) and how `_default_compartments` / `write` choose the compartments.  Every statement of the two
+    functions that is not recognised is refused."""
+    fn = _fn(tree, "_create_sbml_variables")
+    out: dict = {}
+    h = _method_calls(fn, "cpd", "setHasOnlySubstanceUnits")
+    if not (len(h) == 1 and len(h[0].args) == 1 and isinstance(h[0].args[0], ast.Constant)
+            and isinstance(h[0].args[0].value, bool)):
+        raise Unsupported("_create_sbml_variables: cpd.setHasOnlySubstanceUnits(<bool literal>) exactly once")
+    out["hosu"] = h[0].args[0].value
+    for attr, val in (("setConstant", False), ("setBoundaryCondition", False)):
+        c = _method_calls(fn, "cpd", attr)
+        if not (len(c) == 1 and len(c[0].args) == 1 and isinstance(c[0].args[0], ast.Constant) and c[0].args[0].value is val):
+            raise Unsupported(f"_create_sbml_variables: cpd.{attr}({val}) exactly once")
+    am, co = _method_calls(fn, "cpd", "setInitialAmount"), _method_calls(fn, "cpd", "setInitialConcentration")
+    if len(am) + len(co) != 1 or ast.unparse((am + co)[0].args[0]) != "float(init)":
+        raise Unsupported("_create_sbml_variables: exactly one of cpd.setInitialAmount / setInitialConcentration(float(init))")
+    out["amount"] = bool(am)
+    comp = _method_calls(fn, "cpd", "setCompartment")
+    if not (len(comp) == 1 and len(comp[0].args) == 1):
+        raise Unsupported("_create_sbml_variables: cpd.setCompartment(...) exactly once")
+    a = comp[0].args[0]
+    body = [st for st in fn.body if not (isinstance(st, ast.Expr) and isinstance(st.value, ast.Constant))]
+    if isinstance(a, ast.Constant) and isinstance(a.value, str):
+        out["lit"] = a.value
+        if not (len(body) == 1 and isinstance(body[0], ast.For)):
+            raise Unsupported("_create_sbml_variables: statements before the loop over the variables")
+    elif isinstance(a, ast.Name):
+        out["lit"] = None
+        # shape, whatever the local names: v = model.get_raw_variables(); if len(v) == 0: return;
+        # if len(compartments) == 0: ... raise ValueError(...); <a.id> = next(iter(compartments)); for ... in v.items()
+        pre = body[:-1]
+        ok = (len(pre) == 4 and isinstance(pre[0], ast.Assign) and isinstance(pre[0].targets[0], ast.Name)
+              and ast.unparse(pre[0].value) == "model.get_raw_variables()")
+        v = pre[0].targets[0].id if ok else ""
+        ok = ok and isinstance(pre[1], ast.If) and ast.unparse(pre[1].test) == f"len({v}) == 0" \
+            and len(pre[1].body) == 1 and isinstance(pre[1].body[0], ast.Return) and pre[1].body[0].value is None and not pre[1].orelse
+        ok = ok and isinstance(pre[2], ast.If) and ast.unparse(pre[2].test) == "len(compartments) == 0" and not pre[2].orelse \
+            and isinstance(pre[2].body[-1], ast.Raise) and "ValueError" in ast.unparse(pre[2].body[-1]) \
+            and all(isinstance(x, ast.Assign) and isinstance(x.value, (ast.Constant, ast.JoinedStr)) for x in pre[2].body[:-1])
+        ok = ok and isinstance(pre[3], ast.Assign) and ast.unparse(pre[3].targets[0]) == a.id \
+            and ast.unparse(pre[3].value) == "next(iter(compartments))"
+        if not ok or not isinstance(body[-1], ast.For) or ast.unparse(body[-1].iter) != f"{v}.items()":
+            raise Unsupported("_create_sbml_variables: choice of the compartment not recognised:\n"
+                              + "\n".join(ast.unparse(st) for st in pre))
+    else:
+        raise Unsupported("_create_sbml_variables: argument of cpd.setCompartment")
+    # _default_compartments
+    dc = _fn(tree, "_default_compartments")
+    body = [st for st in dc.body if not (isinstance(st, ast.Expr) and isinstance(st.value, ast.Constant))]
+    if not (body and isinstance(body[0], ast.If) and ast.unparse(body[0].test) == "compartments is None"
+            and len(body[0].body) == 1 and isinstance(body[0].body[0], ast.Return)
+            and isinstance(body[0].body[0].value, ast.Dict) and len(body[0].body[0].value.keys) == 1
+            and isinstance(body[-1], ast.Return) and ast.unparse(body[-1].value) == "compartments"):
+        raise Unsupported("_default_compartments: shape")
+    key, val = body[0].body[0].value.keys[0], body[0].body[0].value.values[0]
+    size = [k.value for k in val.keywords if k.arg == "size"] if isinstance(val, ast.Call) else []
+    if not (len(size) == 1 and isinstance(size[0], ast.Constant) and isinstance(size[0].value, int)):
+        raise Unsupported("_default_compartments: size of the default compartment")
+    out["size"] = size[0].value
+    if isinstance(key, ast.Constant) and isinstance(key.value, str):
+        out["default_id"], out["default_fresh"] = key.value, False
+    elif (isinstance(key, ast.Call) and ast.unparse(key.func) == "_free_reference" and len(key.args) == 2
+          and isinstance(key.args[0], ast.Constant) and ast.unparse(key.args[1]) == "taken"):
+        out["default_id"], out["default_fresh"] = key.args[0].value, True
+    else:
+        raise Unsupported("_default_compartments: id of the default compartment")
+    mid = body[1:-1]
+    if not mid:
+        out["clash_refused"] = False
+    elif (len(mid) == 1 and isinstance(mid[0], ast.If)
+          and ast.unparse(mid[0].test) == "(clash := sorted(taken.intersection(compartments)))"
+          and isinstance(mid[0].body[-1], ast.Raise) and "ValueError" in ast.unparse(mid[0].body[-1])):
+        out["clash_refused"] = True
+    else:
+        raise Unsupported("_default_compartments: statements between the default and `return compartments`")
+    if out["default_fresh"] or out["clash_refused"]:
+        w = ast.unparse(_fn(tree, "write"))
+        if "compartments=_default_compartments(compartments, taken=set(model.ids))" not in w:
+            raise Unsupported("write: _default_compartments(compartments, taken=set(model.ids))")
+    # the compartments are written as given
+    cb = [st for st in _fn(tree, "_create_sbml_compartments").body if not (isinstance(st, ast.Expr) and isinstance(st.value, ast.Constant))]
+    okc = (len(cb) == 1 and isinstance(cb[0], ast.For) and ast.unparse(cb[0].iter) == "compartments.items()"
+           and isinstance(cb[0].target, ast.Tuple) and len(cb[0].target.elts) == 2
+           and all(isinstance(e, ast.Name) for e in cb[0].target.elts))
+    if okc:
+        ka, kb = (e.id for e in cb[0].target.elts)
+        cc = "\n".join(ast.unparse(st) for st in cb[0].body)
+        okc = f".setId({ka})" in cc and f".setSize({kb}.size)" in cc
+    if not okc:
+        raise Unsupported("_create_sbml_compartments: shape")
+    return out
+
+
 def _ref_name(tree: ast.Module) -> tuple[bool, str]:
     """`reference = f"{compound_id}ref"` or `reference = _free_reference(f"{compound_id}ref", taken)` with
     `taken = set(model.ids)` before the loop over the reactions"""
@@ -357,13 +457,20 @@ def _ref_name(tree: ast.Module) -> tuple[bool, str]:
         raise Unsupported("reference name: neither an f-string nor _free_reference(f-string, taken)")
     suf = suffix(v.args[0])
     first = [st for st in fn.body if not (isinstance(st, ast.Expr) and isinstance(st.value, ast.Constant))]
-    if not (len(first) == 2 and ast.unparse(first[0]) == "taken = set(model.ids)" and isinstance(first[1], ast.For)):
-        raise Unsupported("_create_sbml_reactions: `taken = set(model.ids)` followed by the loop over the reactions")
+    t0 = ast.unparse(first[0]) if first else ""
+    forms = {"taken = set(model.ids)": False,
+             "taken = set(model.ids) | {c.getId() for c in sbml_model.getListOfCompartments()}": True}
+    if not (len(first) == 2 and t0 in forms and isinstance(first[1], ast.For)):
+        raise Unsupported("_create_sbml_reactions: `taken = set(model.ids)` [| compartment ids] followed by the loop over the reactions")
+    _ref_name.avoids_compartments = forms[t0]
     fr = ast.unparse(ast.Module(body=[st for st in _fn(tree, "_free_reference").body
                                       if not (isinstance(st, ast.Expr) and isinstance(st.value, ast.Constant))], type_ignores=[]))
     if fr != "while name in taken:\n    name = f'{name}_'\ntaken.add(name)\nreturn name":
         raise Unsupported(f"_free_reference: body not recognised:\n{fr}")
     return True, suf
+
+
+_ref_name.avoids_compartments = False
 
 
 def _prefixes(tree: ast.Module) -> dict[str, str]:
@@ -456,9 +563,11 @@ def render(repo: Path) -> str:
     bin_np = _binary_numpy_only(tree)
     first_ret = _body_first_return(tree)
     _keywords_refused(tree)
+    _ref_name.avoids_compartments = False
     ref_fresh, ref_suffix = _ref_name(tree)
     pre = _prefixes(tree)
     order_m = _export_order(tree)
+    sp = _species_attrs(tree)
 
     def pair(kv):
         return f'("{kv[0]}", {kv[1]})'
@@ -500,6 +609,7 @@ def iaSetter : String := "{setter}"
 def bodyFirstReturn : Bool := {str(first_ret).lower()}
 def refFresh : Bool := {str(ref_fresh).lower()}
 def refSuffix : String := "{ref_suffix}"
+def refAvoidsCompartments : Bool := {str(bool(ref_fresh and _ref_name.avoids_compartments)).lower()}
 def prefixParam : String := "{pre['param']}"
 def prefixVar : String := "{pre['var']}"
 def prefixRule : String := "{pre['rule']}"
@@ -508,6 +618,13 @@ def prefixRxn : String := "{pre['rxn']}"
 def prefixRefId : String := "{pre['refId']}"
 def prefixRefSpecies : String := "{pre['refSpecies']}"
 def exportOrder : List Stage := {_lst(order_m, b)}
+def speciesHosu : Bool := {str(sp['hosu']).lower()}
+def speciesInitAmount : Bool := {str(sp['amount']).lower()}
+def speciesCompartmentLit : Option String := {'none' if sp['lit'] is None else 'some "' + sp['lit'] + '"'}
+def defaultCompartmentId : String := "{sp['default_id']}"
+def defaultCompartmentSize : Nat := {sp['size']}
+def defaultCompartmentFresh : Bool := {str(sp['default_fresh']).lower()}
+def compartmentClashRefused : Bool := {str(sp['clash_refused']).lower()}
 
 end Mxl.C08.Gen
 """
